@@ -266,36 +266,37 @@ Proof.
   repeat constructor; ring.
 Qed.
 
-(* through quantities: Celsius -> kelvin quantity -> Celsius, for every temperature except absolute zero *)
-Theorem celsius_quantity_roundtrip_partial off ks kd c :
-  ~ ks == 0 -> wf_dim kd -> ~ c + off == 0 ->
-  exists sv dv, to_kelvin_quantity off (VQ ks) kd c = Ok (sv, dv) /\
+(* through quantities: Celsius -> kelvin quantity -> Celsius, for EVERY temperature (absolute zero included: the
+   explicit dimension=units.temperature keeps the dimension that a zero factor would otherwise lose) *)
+Theorem celsius_quantity_roundtrip off ks kd td c :
+  ~ ks == 0 -> deqb td kd = true ->
+  exists sv dv, to_kelvin_quantity off (VQ ks) kd td c = Ok (sv, dv) /\
     exists c', from_kelvin_quantity off (VQ ks) kd sv dv = Ok (VQ c') /\ c' == c.
 Proof.
-  intros Hks Hkd Hc.
-  assert (Hp : ~ (c + off) * ks == 0).
-  { intros E. apply Qmult_integral in E. tauto. }
+  intros Hks Htd.
   unfold to_kelvin_quantity, quantity_ctor, to_kelvin. cbn [collect mul_go is_number].
-  unfold mul_step. cbn [fst snd vmul is_any].
-  assert (Hq : qzero (Qred ((c + off) * ks)) = false).
-  { apply qzero_false. rewrite Qred_correct. exact Hp. }
-  rewrite Hq. cbn [complex_ok].
+  unfold mul_step. cbn [fst snd vmul].
+  assert (R : exists dv0, (if is_any (VQ (Qred ((c + off) * ks))) then (VQ (Qred ((c + off) * ks)), dzero)
+                           else (VQ (Qred ((c + off) * ks)), dmul dzero kd)) = (VQ (Qred ((c + off) * ks)), dv0)).
+  { destruct (is_any (VQ (Qred ((c + off) * ks)))); eexists; reflexivity. }
+  destruct R as [dv0 R]. rewrite R. cbn [complex_ok].
   eexists _, _. split; [reflexivity|].
-  unfold from_kelvin_quantity.
-  assert (D : deqb (dmul dzero kd) kd = true) by (apply deqb_deq, dmul_dzero_l; exact Hkd).
-  rewrite D. rewrite vdiv_VQ_nonzero by exact Hks.
+  unfold from_kelvin_quantity. rewrite Htd. rewrite vdiv_VQ_nonzero by exact Hks.
   eexists. split; [reflexivity|].
   rewrite Qred_correct. unfold from_kelvin. rewrite !Qred_correct. field. exact Hks.
 Qed.
 
-(* ... and at absolute zero the quantity helpers are NOT inverse: the zero kelvin quantity is registered as
-   dimensionless (a zero factor is "any dimension" for the collector) and from_kelvin_quantity refuses it *)
-Theorem celsius_quantity_roundtrip_refuted :
-  exists off ks kd c sv dv,
-    to_kelvin_quantity off (VQ ks) kd c = Ok (sv, dv) /\ from_kelvin_quantity off (VQ ks) kd sv dv = Err E_TYPE.
-Proof.
-  exists (27315 # 100), 1, (base TEMPERATURE), (- (27315 # 100)). eexists _, _. vm_compute. split; reflexivity.
-Qed.
+(* absolute zero: 0 K keeps the temperature dimension and converts back to -273.15 *)
+Example ex_celsius_absolute_zero :
+  to_kelvin_quantity (27315 # 100) (VQ 1) (base TEMPERATURE) (base TEMPERATURE) (- (27315 # 100)) = Ok (VQ 0, base TEMPERATURE) /\
+  from_kelvin_quantity (27315 # 100) (VQ 1) (base TEMPERATURE) (VQ 0) (base TEMPERATURE) = Ok (VQ (-5463 # 20)).   (* = -273.15, reduced *)
+Proof. vm_compute. split; reflexivity. Qed.
+
+(* without the explicit dimension the zero quantity is dimensionless and is refused (the defect repaired in d2bd6de) *)
+Example ex_celsius_absolute_zero_without_override :
+  quantity_ctor (QMul [QNum (VQ 0); QQty (VQ 1) (base TEMPERATURE)]) None = Ok (VQ 0, dzero) /\
+  from_kelvin_quantity (27315 # 100) (VQ 1) (base TEMPERATURE) (VQ 0) dzero = Err E_TYPE.
+Proof. vm_compute. split; reflexivity. Qed.
 
 (* ------------------------------------------------------------------------------------------------ *)
 (* convert_to_si                                                                                     *)
